@@ -13,19 +13,29 @@
   Done: TLV-table-mod body (`tlvTableMod_walk`), Hello element list and the WHOLE Hello through `Spec.walk`
   (`hello_walk`, `hello_specWalk`), any list of experimenter bundle properties (`bundleProps_walk`);
   single actions through the real `Spec.walkAction` for the kinds listed in `ActionKnown` (`action_accept`,
-  `actionOutput_accept`, `nx_accept_of_wire`), a Bucket (`bucket_specWalk`) and a GroupMod with any list of buckets of
-  such actions through `Spec.walkBuckets` (`groupMod_embeds`, `groupMod_specWalk`).
-  Not done (time): packet-out, acceptance of note / controller / learn / set-field / reg-load2 / dec-ttl-cnt-ids /
-  nat / conntrack actions, the BundleAdd frame, learn specs (`Spec.walkLearnSpecs`), flow-mod through `Spec.walk`,
-  group-mod through the top-level `Spec.walk` (needs the header codes and the pad byte of the GroupMod to be zero).
+  `actionOutput_accept`, `nx_accept_of_wire`; includes controller and note), a Bucket (`bucket_specWalk`), a GroupMod
+  with any list of buckets of such actions through `Spec.walkBuckets` (`groupMod_embeds`, `groupMod_specWalk`) and
+  through the TOP-LEVEL `Spec.walk` for version 4 / type 15 / pad byte 0 as NewGroupMod stores (`groupMod_topWalk`),
+  a PacketOut with any such actions and any payload through `Spec.walkActions` over its actions_len bytes
+  (`packetOut_specWalk`).
+  Instructions through `Spec.walkInstrs` for the kinds in `InstrKnown` (`instr_accept`), the empty match
+  (`matchNew_accept`), and a whole FlowMod — any command 0..4, any accepted match, any list of known instructions —
+  through the TOP-LEVEL `Spec.walk` (`flowMod_embeds2`, `flowMod_topWalk`).  Walker-side lemmas for OXM TLVs and
+  non-empty matches (`walkOxm_accept`, `walkOxms_flatten`, `walkMatch_accept`) are in OFV/Lemmas/Walk4.lean; they are not
+  yet connected to `MatchField.marshalM` / `Match.marshalM` (the `hmatch` hypothesis of `flowMod_topWalk` is the interface).
+  Not done (time): a non-empty match and set-field / reg-load2 over the model encoders, packet-out through the top-level
+  `Spec.walk`, learn / dec-ttl-cnt-ids / nat / conntrack actions, the BundleAdd frame, learn specs.
   No encoding produced by the model was found that the walker rejects.
 -/
 import OFV.Props.C02b
 import OFV.Lemmas.Walk2
 import OFV.Lemmas.Walk3
+import OFV.Lemmas.Walk4
 import OFV.Lemmas.LayNat
+import OFV.Lemmas.FrameMsg
+import OFV.Lemmas.RepMsg
 namespace OFV.Props.C02c
-open OFV OFV.Go OFV.Model OFV.Spec OFV.Elem OFV.Walk2 OFV.Walk3 OFV.Props.C02b
+open OFV OFV.Go OFV.Model OFV.Spec OFV.Elem OFV.Walk2 OFV.Walk3 OFV.Walk4 OFV.Props.C02b
 
 /-- a list of encodings whose sizes are the reported 16-bit sizes, fitting 16 bits in total -/
 theorem flat_sum (ls : List UInt16) (bss : List Bytes) (h : bss.map List.length = ls.map UInt16.toNat)
@@ -422,7 +432,8 @@ def nxFixedKinds : List String := ["NXActionConjunction", "NXActionRegLoad", "NX
 /-- ACTION KINDS FOR WHICH ACCEPTANCE BY THE REAL WALKER IS PROVED, with the header the constructors store:
     output (6 zero pad bytes), group, set-queue, dec-nw-ttl, pop-vlan, push-vlan/mpls/pbb, pop-mpls, set-mpls-ttl,
     set-nw-ttl, and the fixed-size Nicira actions conjunction, reg-load, reg-move, resubmit, resubmit-table (also the
-    ct variant), output-reg, ct-clear, dec-ttl — any field values -/
+    ct variant), output-reg, ct-clear, dec-ttl, controller (whatever length is stored), note (any note of at most
+    65 518 bytes) — any field values -/
 def ActionKnown (v : V) : Prop :=
   (∃ port ml, v = .obj "ActionOutput" [ActionHeader.mk 0 16, .num port, .num ml, .bytes (zeros 6)]) ∨
   (v.kind = "ActionGroup" ∧ ahdr v = some (22, 8)) ∨
@@ -433,7 +444,9 @@ def ActionKnown (v : V) : Prop :=
   (v.kind = "ActionPopMpls" ∧ ahdr v = some (20, 8)) ∨
   (v.kind = "ActionMplsTtl" ∧ ahdr v = some (15, 8)) ∨
   (v.kind = "ActionNwTtl" ∧ ahdr v = some (23, 8)) ∨
-  (v.kind ∈ nxFixedKinds ∧ ∃ sub sz, nxFixed.lookup sub = some sz ∧ nxhdr v = some (0xffff, sz, 0x2320, sub))
+  (v.kind ∈ nxFixedKinds ∧ ∃ sub sz, nxFixed.lookup sub = some sz ∧ nxhdr v = some (0xffff, sz, 0x2320, sub)) ∨
+  (v.kind = "NXActionController" ∧ ∃ ln, nxhdr v = some (0xffff, ln, 0x2320, 20)) ∨
+  (∃ hd note ln, v = .obj "NXActionNote" [hd, .bytes note] ∧ note.length ≤ 65518 ∧ nxhdr v = some (0xffff, ln, 0x2320, 8))
 
 macro "act_leaf0" v:ident hk:ident h:ident K:ident : tactic => `(tactic| (
   have e : Action.marshalM $v = $K $v := by
@@ -445,7 +458,7 @@ macro "act_leaf0" v:ident hk:ident h:ident K:ident : tactic => `(tactic| (
 theorem action_accept (v : V) (hk : ActionKnown v) (bs : Bytes) (v2 : V) (h : Action.marshalM v = .ok (bs, v2)) :
     Accepted bs := by
   rcases hk with ⟨port, ml, rfl⟩ | ⟨hk, ha⟩ | ⟨hk, ha⟩ | ⟨hk, ha⟩ | ⟨hk, ha⟩ | ⟨hk, ty, hty, ha⟩ | ⟨hk, ha⟩ | ⟨hk, ha⟩ |
-    ⟨hk, ha⟩ | ⟨hk, sub, sz, hs, hn⟩
+    ⟨hk, ha⟩ | ⟨hk, sub, sz, hs, hn⟩ | ⟨hk, ln, hn⟩ | ⟨hd, note, ln, rfl, hfit, hn⟩
   · have e : Action.marshalM (.obj "ActionOutput" [ActionHeader.mk 0 16, .num port, .num ml, .bytes (zeros 6)]) =
         ActionOutput.marshalM (.obj "ActionOutput" [ActionHeader.mk 0 16, .num port, .num ml, .bytes (zeros 6)]) := by
       simp [Action.marshalM, Action.marshalD, Action.marshalLeaf, V.kind]
@@ -497,6 +510,14 @@ theorem action_accept (v : V) (hk : ActionKnown v) (bs : Bytes) (v2 : V) (h : Ac
       exact accepted_of _ _ (nx_accept_of_wire sub sz bs hs (nxCTClear_wire v bs v2 _ _ _ _ hn h))
     · act_leaf0 v hk h NXActionDecTTL.marshalM
       exact accepted_of _ _ (nx_accept_of_wire sub sz bs hs (nxDecTTL_wire v bs v2 _ _ _ _ hn h))
+  · act_leaf0 v hk h NXActionController.marshalM
+    obtain ⟨a, b⟩ := nxController_wire v bs v2 _ _ _ _ hn h
+    exact accepted_of _ _ (accept_nxFixed 20 bs (by rw [a]; decide) (by omega) (by omega) b.code_ok b.len_ok b.vendor_ok b.sub_ok)
+  · have e : Action.marshalM (.obj "NXActionNote" [hd, .bytes note]) = NXActionNote.marshalM (.obj "NXActionNote" [hd, .bytes note]) := by
+      simp [Action.marshalM, Action.marshalD, Action.marshalLeaf, V.kind]
+    rw [e] at h
+    obtain ⟨a, b, c, _⟩ := nxNote_ok ln hd note bs v2 hfit hn h
+    exact accepted_of _ _ (accept_note bs (by omega) b a.code_ok a.len_ok a.vendor_ok a.sub_ok)
 
 /-! ### buckets and group-mod through the real walker -/
 
@@ -534,7 +555,8 @@ theorem groupMod_embeds (hh : V) (cmd t p g : Nat) (bks : List V) (bs : Bytes) (
     (h : GroupMod.marshalM (.obj "GroupMod" [hh, .num cmd, .num t, .num p, .num g, .list bks]) = .ok (bs, v2)) :
     ∃ ls bks1 bss bks2 pre, mapM2 Bucket.lenM bks = .ok (ls, bks1) ∧ mapM2 Bucket.marshalCopyM bks1 = .ok (bss, bks2) ∧
       pre.length = 16 ∧ bs = pre ++ bss.flatten ∧
-      Header.bytes (Header.setLength (16 + sum16 ls) hh) = .ok (pre.take 8) ∧ pre.drop 8 = be16 (n16 cmd) ++ pre.drop 10 := by
+      Header.bytes (Header.setLength (16 + sum16 ls) hh) = .ok (pre.take 8) ∧
+      pre.drop 8 = be16 (n16 cmd) ++ [n8 t, n8 p] ++ be32 (n32 g) := by
   unfold GroupMod.marshalM at h
   obtain ⟨⟨l, v'⟩, hl, h3⟩ := bind_ok_inv _ _ _ h
   simp only [GroupMod.lenM, hdel, if_false] at hl
@@ -556,12 +578,8 @@ theorem groupMod_embeds (hh : V) (cmd t p g : Nat) (bks : List V) (bs : Bytes) (
       rw [← e8, List.take_left]
     · have d8 : ∀ (a r : Bytes), a.length = 8 → (a ++ r).drop 8 = r := by
         intro a r ha; rw [← ha, List.drop_left]
-      have e10 : ∀ (a c r : Bytes), a.length = 8 → c.length = 2 → (a ++ (c ++ r)).drop 10 = r := by
-        intro a c r ha hc
-        have : (a ++ c).length = 10 := by simp [ha, hc]
-        rw [← List.append_assoc, ← this, List.drop_left]
       simp only [List.append_assoc]
-      rw [d8 _ _ e8, e10 hb (be16 (n16 cmd)) _ e8 (by simp)]
+      rw [d8 _ _ e8]
 
 /-- the action subtrees the walker builds for the bucket `c` -/
 def bucketTrees (c : Bytes) : List Tree :=
@@ -583,8 +601,9 @@ theorem groupMod_specWalk (hh : V) (cmd t p g : Nat) (bks : List V) (bs : Bytes)
     (hk : ∀ ls bks1, mapM2 Bucket.lenM bks = .ok (ls, bks1) → ∀ bk ∈ bks1, BucketKnown bk)
     (h : GroupMod.marshalM (.obj "GroupMod" [hh, .num cmd, .num t, .num p, .num g, .list bks]) = .ok (bs, v2)) :
     ∃ bss : List Bytes, bs.drop 16 = bss.flatten ∧ bss.length = bks.length ∧
-      ∀ fuel, bks.length < fuel →
-        walkBuckets fuel (bs.drop 16) = .ok (bss.map (fun c => Tree.node "bucket" c (bucketTrees c))) := by
+      (∀ fuel, bks.length < fuel →
+        walkBuckets fuel (bs.drop 16) = .ok (bss.map (fun c => Tree.node "bucket" c (bucketTrees c)))) ∧
+      bks.length ≤ bs.length := by
   obtain ⟨ls, bks1, bss, bks2, pre, hm, hmm, hpre, rfl, _, _⟩ := groupMod_embeds hh cmd t p g bks bs v2 hdel h
   have hdrop : (pre ++ bss.flatten).drop 16 = bss.flatten := by rw [← hpre, List.drop_left]
   have hcnt : bss.length = bks.length := by
@@ -600,9 +619,11 @@ theorem groupMod_specWalk (hh : V) (cmd t p g : Nat) (bks : List V) (bs : Bytes)
     simp only [List.length_append, hpre] at hlt
     obtain ⟨abss, _, hb⟩ := bucket_specWalk x (hk ls bks1 hm x hx) c' z hmb (by omega)
     exact bucketTrees_of_ok c' _ hb
-  refine ⟨bss, hdrop, hcnt, fun fuel hf => ?_⟩
-  rw [hdrop]
-  exact walkBuckets_flatten bucketTrees bss hok fuel (by omega)
+  refine ⟨bss, hdrop, hcnt, fun fuel hf => ?_, ?_⟩
+  · rw [hdrop]
+    exact walkBuckets_flatten bucketTrees bss hok fuel (by omega)
+  · have := count_le_flatten bss (fun c hc => by have := (hok c hc).1; omega)
+    simp only [List.length_append]; omega
 
 /-- two buckets with different actions: [output 7, group 3] and [pop-vlan, set-queue 5, resubmit-table(3)] -/
 def exBuckets : List V := [
@@ -616,8 +637,10 @@ theorem known_group (g : Nat) : ActionKnown (ActionGroup.new g) := Or.inr (Or.in
 theorem known_setqueue (q : Nat) : ActionKnown (ActionSetqueue.new q) := Or.inr (Or.inr (Or.inl ⟨rfl, rfl⟩))
 theorem known_popVlan : ActionKnown ActionPopVlan.new := Or.inr (Or.inr (Or.inr (Or.inr (Or.inl ⟨rfl, rfl⟩))))
 theorem known_ctClear : ActionKnown NXActionCTClear.new :=
-  Or.inr (Or.inr (Or.inr (Or.inr (Or.inr (Or.inr (Or.inr (Or.inr (Or.inr
-    ⟨by show "NXActionCTClear" ∈ nxFixedKinds; decide, 43, 16, by decide, rfl⟩))))))))
+  Or.inr (Or.inr (Or.inr (Or.inr (Or.inr (Or.inr (Or.inr (Or.inr (Or.inr (Or.inl
+    ⟨by show "NXActionCTClear" ∈ nxFixedKinds; decide, 43, 16, by decide, rfl⟩)))))))))
+theorem known_controller (id : Nat) : ActionKnown (NXActionController.new id) :=
+  Or.inr (Or.inr (Or.inr (Or.inr (Or.inr (Or.inr (Or.inr (Or.inr (Or.inr (Or.inr (Or.inl ⟨rfl, 16, rfl⟩))))))))))
 
 /-- the hypotheses of `groupMod_specWalk` are satisfiable: a group-mod ADD with those two buckets encodes, and the real
     walker's bucket walk returns two bucket subtrees -/
@@ -627,7 +650,7 @@ example : (GroupMod.marshalM (.obj "GroupMod" [.obj "Header" [.num 4, .num 15, .
       .num Gen.openflow13.OFPGC_ADD, .num 0, .num 0, .num 1, .list exBuckets]) = .ok (bs, v2) → bs.length < 65536 →
     ∃ ts, walkBuckets 3 (bs.drop 16) = .ok ts ∧ ts.length = 2 := by
   refine ⟨rfl, fun bs v2 h hlt => ?_⟩
-  obtain ⟨bss, hd, hc, hw⟩ := groupMod_specWalk (.obj "Header" [.num 4, .num 15, .num 8, .num 7])
+  obtain ⟨bss, hd, hc, hw, _⟩ := groupMod_specWalk (.obj "Header" [.num 4, .num 15, .num 8, .num 7])
     Gen.openflow13.OFPGC_ADD 0 0 1 exBuckets bs v2 (by decide) hlt (by
       intro ls bks1 hm bk hbk
       have e : mapM2 Bucket.lenM exBuckets = .ok ([40, 48], exBuckets) := rfl
@@ -649,5 +672,501 @@ example : (GroupMod.marshalM (.obj "GroupMod" [.obj "Header" [.num 4, .num 15, .
         · exact ⟨actionWF_ctClear, known_ctClear⟩) h
   refine ⟨_, hw 3 (by decide), ?_⟩
   rw [List.length_map, hc]; rfl
+
+/-- WALK of a whole GroupMod by the TOP-LEVEL specification walker: version 4, type OFPT_GROUP_MOD, pad byte 0 (what
+    NewGroupMod stores), any transaction id / stored length / command but delete / group type / group id, ANY list of
+    buckets as in `groupMod_specWalk`: `Spec.walk` accepts the encoding — the header declares exactly the bytes present,
+    the pad byte is zero, every bucket and every action inside is legal — and its tree is the message node with exactly
+    one "bucket" child per bucket -/
+theorem groupMod_topWalk (ln : V) (xid cmd t g : Nat) (bks : List V) (bs : Bytes) (v2 : V)
+    (hdel : cmd ≠ Gen.openflow13.OFPGC_DELETE) (hlt : bs.length < 65536)
+    (hk : ∀ ls bks1, mapM2 Bucket.lenM bks = .ok (ls, bks1) → ∀ bk ∈ bks1, BucketKnown bk)
+    (h : GroupMod.marshalM (.obj "GroupMod" [.obj "Header" [.num 4, .num 15, ln, .num xid], .num cmd, .num t, .num 0,
+      .num g, .list bks]) = .ok (bs, v2)) :
+    ∃ bss : List Bytes, bs.drop 16 = bss.flatten ∧ bss.length = bks.length ∧
+      Spec.walk bs = .ok (.node "msg 15" bs (bss.map (fun c => Tree.node "bucket" c (bucketTrees c)))) := by
+  obtain ⟨bss, hd, hc, hw, hcnt⟩ := groupMod_specWalk _ cmd t 0 g bks bs v2 hdel hlt hk h
+  refine ⟨bss, hd, hc, ?_⟩
+  obtain ⟨ls, bks1, bss', bks2, pre, hm, hmm, hpre, rfl, hhb, hfix⟩ := groupMod_embeds _ cmd t 0 g bks bs v2 hdel h
+  have hflat : bss'.flatten = bss.flatten := by rw [← hd, ← hpre, List.drop_left]
+  -- the stored header length is the number of bytes
+  have hsum := OFV.Frame.buckets_size bks ls bks1 bss' bks2 hm hmm (by
+    simp only [List.length_append, hpre] at hlt; omega)
+  have hp : (2 : Nat) ^ 16 = 65536 := rfl
+  have eL : (16 + sum16 ls : UInt16).toNat = (pre ++ bss'.flatten).length := by
+    have h16 : (16 : UInt16).toNat = 16 := rfl
+    simp only [List.length_append, hpre] at hlt ⊢
+    rw [UInt16.toNat_add, hsum, h16, hp]; omega
+  simp only [Header.setLength, Header.bytes, V.u16] at hhb
+  have e8 : pre.take 8 = [n8 4, n8 15] ++ be16 (n16 (16 + sum16 ls : UInt16).toNat) ++ be32 (n32 xid) := (Res.ok.inj hhb).symm
+  have hsplit : pre = ([n8 4, n8 15] ++ be16 (n16 (16 + sum16 ls : UInt16).toNat) ++ be32 (n32 xid)) ++
+      (be16 (n16 cmd) ++ [n8 t, n8 0] ++ be32 (n32 g)) := by
+    rw [← e8, ← hfix, List.take_append_drop]
+  generalize hB : pre ++ bss'.flatten = B at *
+  have hB' : B = [n8 4, n8 15] ++ (be16 (n16 (16 + sum16 ls : UInt16).toNat) ++ (be32 (n32 xid) ++
+      ((be16 (n16 cmd) ++ [n8 t, n8 0] ++ be32 (n32 g)) ++ bss'.flatten))) := by
+    rw [← hB, hsplit]; simp only [List.append_assoc]
+  have hBl : 16 ≤ B.length := by rw [← hB]; simp [hpre]
+  have hv : u8At B 0 = 4 := by rw [hB']; rfl
+  have ht : u8At B 1 = 15 := by rw [hB']; rfl
+  have hln : u16At B 2 = B.length := by
+    rw [u16At_eq_beAt B 2 (by omega)]
+    have hr := beAt_append_right [n8 4, n8 15] (be16 (n16 (16 + sum16 ls : UInt16).toNat) ++ (be32 (n32 xid) ++
+      ((be16 (n16 cmd) ++ [n8 t, n8 0] ++ be32 (n32 g)) ++ bss'.flatten))) 0 2
+    rw [← hB'] at hr
+    have hr' : beAt B 2 2 = beAt (be16 (n16 (16 + sum16 ls : UInt16).toNat) ++ (be32 (n32 xid) ++
+      ((be16 (n16 cmd) ++ [n8 t, n8 0] ++ be32 (n32 g)) ++ bss'.flatten))) 0 2 := hr
+    rw [hr', beAt_be16, n16_of_toNat, eL]
+  have hbody : B.drop 8 = (be16 (n16 cmd) ++ [n8 t, n8 0] ++ be32 (n32 g)) ++ bss'.flatten := by
+    rw [hB']
+    have : ([n8 4, n8 15] ++ (be16 (n16 (16 + sum16 ls : UInt16).toNat) ++ be32 (n32 xid))).length = 8 := by simp
+    rw [← List.append_assoc, ← List.append_assoc, ← this, List.append_assoc [n8 4, n8 15], List.drop_left]
+  have hz : zerosAt (B.drop 8) 3 1 "group-mod" = .ok () := by
+    apply zerosAt_ok
+    rw [hbody]
+    have : ∀ (c r : Bytes) (x : UInt8), c.length = 2 → slice ((c ++ [x, 0] ++ be32 (n32 g)) ++ r) 3 1 = [0] := by
+      intro c r x hc
+      match c, hc with
+      | [a, b], _ => rfl
+    rw [show n8 0 = (0 : UInt8) from rfl, this _ _ _ (by simp)]; rfl
+  have hdd : (B.drop 8).drop 8 = B.drop 16 := by rw [List.drop_drop]
+  have hnl : ¬ B.length < 8 := by omega
+  have hbl : ¬ (B.drop 8).length < 8 := by simp; omega
+  unfold Spec.walk
+  simp only [walkMsg, hnl, hv, ht, hln, hz, hbl, hdd, if_false, ne_eq, not_true_eq_false,
+    hw (B.length + 1) (by omega)]
+  rfl
+
+theorem exBuckets_known : ∀ ls bks1, mapM2 Bucket.lenM exBuckets = .ok (ls, bks1) → ∀ bk ∈ bks1, BucketKnown bk := by
+  intro ls bks1 hm bk hbk
+  have e : mapM2 Bucket.lenM exBuckets = .ok ([40, 48], exBuckets) := rfl
+  rw [e] at hm; cases hm
+  simp only [exBuckets, List.mem_cons, List.mem_nil_iff, or_false] at hbk
+  rcases hbk with rfl | rfl
+  · refine ⟨_, [16, 8], _, rfl, rfl, ?_⟩
+    intro a ha
+    simp only [List.mem_cons, List.mem_nil_iff, or_false] at ha
+    rcases ha with rfl | rfl
+    · exact ⟨actionWF_output 7, known_output 7⟩
+    · exact ⟨actionWF_group 3, known_group 3⟩
+  · refine ⟨_, [8, 8, 16], _, rfl, rfl, ?_⟩
+    intro a ha
+    simp only [List.mem_cons, List.mem_nil_iff, or_false] at ha
+    rcases ha with rfl | rfl | rfl
+    · exact ⟨actionWF_popVlan, known_popVlan⟩
+    · exact ⟨actionWF_setqueue 5, known_setqueue 5⟩
+    · exact ⟨actionWF_ctClear, known_ctClear⟩
+
+/-- `groupMod_topWalk` applies to what the constructors build: NewGroupMod() (transaction id 7) + AddBucket twice has
+    version 4, type 15, pad byte 0; it encodes, and the top-level walker accepts the encoding -/
+example : exBuckets.foldlM GroupMod.addBucket (GroupMod.new 7) = .ok (.obj "GroupMod" [.obj "Header" [.num 4, .num 15, .num 8, .num 7],
+      .num Gen.openflow13.OFPGC_ADD, .num Gen.openflow13.OFPGT_ALL, .num 0, .num 0, .list exBuckets]) ∧
+    (GroupMod.marshalM (.obj "GroupMod" [.obj "Header" [.num 4, .num 15, .num 8, .num 7],
+      .num Gen.openflow13.OFPGC_ADD, .num Gen.openflow13.OFPGT_ALL, .num 0, .num 0, .list exBuckets])).isOk = true ∧
+    ∀ bs v2, GroupMod.marshalM (.obj "GroupMod" [.obj "Header" [.num 4, .num 15, .num 8, .num 7],
+      .num Gen.openflow13.OFPGC_ADD, .num Gen.openflow13.OFPGT_ALL, .num 0, .num 0, .list exBuckets]) = .ok (bs, v2) →
+      bs.length < 65536 → ∃ t, Spec.walk bs = .ok t := by
+  refine ⟨rfl, rfl, fun bs v2 h hlt => ?_⟩
+  obtain ⟨bss, _, _, hw⟩ := groupMod_topWalk (.num 8) 7 Gen.openflow13.OFPGC_ADD Gen.openflow13.OFPGT_ALL 0 exBuckets bs v2
+    (by decide) hlt exBuckets_known h
+  exact ⟨_, hw⟩
+
+/-! ### packet-out -/
+
+/-- WALK of a PacketOut (any payload functions `cl` / `cm`, i.e. any kind of Data; any buffer id / in-port / stored
+    actions_len / header) with ANY list of actions that — as Len() leaves them — are well-formed and of the known kinds,
+    the whole staying below 64 KiB: behind the 8 header bytes come buffer id, in-port, the actions_len word holding
+    exactly the number of action bytes, 6 zero pad bytes, and the actions' own encodings; the REAL walker's action walk
+    over the `actions_len` bytes behind the 16 fixed bytes accepts and returns exactly one subtree per action -/
+theorem packetOut_specWalk (cl : MsgLenF) (cm : MsgMarF) (hh : V) (b ip al0 : Nat) (pad : V) (as : List V) (d : V)
+    (bs : Bytes) (v2 : V)
+    (hk : ∀ ls as1, mapM2 Action.lenM as = .ok (ls, as1) → ∀ a ∈ as1, ActionWF a ∧ ActionKnown a)
+    (hfit : ∀ ls as1 ld d1, mapM2 Action.lenM as = .ok (ls, as1) → cl d = .ok (ld, d1) →
+      24 + (ls.map UInt16.toNat).sum + ld.toNat < 65536)
+    (h : PacketOut.marshalWith cl cm (.obj "PacketOut" [hh, .num b, .num ip, .num al0, pad, .list as, d]) = .ok (bs, v2)) :
+    ∃ (abs : List Bytes) (hb : Bytes), hb.length = 8 ∧ abs.length = as.length ∧ 24 + abs.flatten.length ≤ bs.length ∧
+      bs.take (24 + abs.flatten.length) =
+        hb ++ be32 (n32 b) ++ be32 (n32 ip) ++ be16 (n16 abs.flatten.length) ++ zeros 6 ++ abs.flatten ∧
+      u16At (bs.drop 8) 8 = abs.flatten.length ∧ zerosAt (bs.drop 8) 10 6 "packet-out" = .ok () ∧
+      ∀ fuel, as.length + 1 < fuel →
+        walkActions fuel (slice (bs.drop 8) 16 (u16At (bs.drop 8) 8)) = .ok (abs.map actTree) := by
+  unfold PacketOut.marshalWith at h
+  obtain ⟨⟨l0, va⟩, hl0, g1⟩ := bind_ok_inv _ _ _ h
+  obtain ⟨ls, as1, ld, d1, hm1, hd1, rfl, rfl⟩ := OFV.Rep.PacketOut.lenWith_inv cl _ _ _ _ _ _ _ _ _ hl0
+  simp only at g1
+  obtain ⟨⟨l1, vb⟩, hl1, g2⟩ := bind_ok_inv _ _ _ g1
+  have hm1' := OFV.Props.C13.actions_len_idem _ _ _ hm1
+  obtain ⟨ls', as1', ld', d1', hm2, hd2, rfl, rfl⟩ := OFV.Rep.PacketOut.lenWith_inv cl _ _ _ _ _ _ _ _ _ hl1
+  rw [hm1'] at hm2
+  cases hm2
+  simp only [OFV.Model.msgTryM_eq _ Action.marshalM_noErr] at g2
+  obtain ⟨hb, hhb, g3⟩ := bind_ok_inv _ _ _ g2
+  obtain ⟨⟨als, as3⟩, hm3, g4⟩ := bind_ok_inv _ _ _ g3
+  rw [hm1'] at hm3
+  cases hm3
+  obtain ⟨⟨abs, as2⟩, hmm, g5⟩ := bind_ok_inv _ _ _ g4
+  obtain ⟨f0, hf0, g6⟩ := bind_ok_inv _ _ _ g5
+  obtain ⟨⟨db, d2⟩, hdm, g7⟩ := bind_ok_inv _ _ _ g6
+  obtain ⟨out, hout, g8⟩ := bind_ok_inv _ _ _ g7
+  have eb : bs = out := by cases g8; rfl
+  subst eb
+  have hbl := Header.bytes_length _ _ hhb
+  have hlens := mapM2_lengths Action.lenM Action.marshalM as1 ls as1 abs as2 hm1' hmm
+    (fun x _ l y bx z hx hy => C06b.action_size y l y bx z (Action.lenM_idem x l y hx) hy)
+  have hbig := hfit ls as1 ld d1 hm1 hd1
+  have hflat : abs.flatten.length = (ls.map UInt16.toNat).sum := by rw [flatten_length_sum, hlens]
+  have hs := flat_sum ls abs hlens (by omega)
+  have hp : (2 : Nat) ^ 16 = 65536 := rfl
+  have eL : (8 + 16 + sum16 ls + ld : UInt16).toNat = 24 + abs.flatten.length + ld.toNat := by
+    have h8 : (8 : UInt16).toNat = 8 := rfl
+    have h16 : (16 : UInt16).toNat = 16 := rfl
+    rw [UInt16.toNat_add, UInt16.toNat_add, UInt16.toNat_add, hs, h8, h16, hp]; omega
+  have hlen := fill_length _ _ _ hout
+  rw [eL] at hlen hout
+  have htf : ∀ q ∈ [pCopy hb, pU32 b, pU32 ip, pU16 (sum16 ls).toNat, pSkip 6], q.Tight := by
+    intro q hq; simp only [List.mem_cons, List.mem_nil_iff, or_false] at hq
+    rcases hq with rfl | rfl | rfl | rfl | rfl <;> simp [pCopy, pU32, pU16, pSkip, Piece.Tight]
+  have htl : ∀ q ∈ [pCopy hb, pU32 b, pU32 ip, pU16 (sum16 ls).toNat, pSkip 6] ++ abs.map pCopy, q.Tight := by
+    intro q hq
+    rw [List.mem_append] at hq
+    rcases hq with hq | hq
+    · exact htf q hq
+    · exact tight_map_pCopy abs q hq
+  have hplf : piecesLen [pCopy hb, pU32 b, pU32 ip, pU16 (sum16 ls).toNat, pSkip 6] = 24 := by
+    simp [piecesLen, pCopy, pU32, pU16, pSkip, Piece.adv, hbl]
+  have hpl : piecesLen ([pCopy hb, pU32 b, pU32 ip, pU16 (sum16 ls).toNat, pSkip 6] ++ abs.map pCopy) =
+      24 + abs.flatten.length := by
+    rw [piecesLen_append, hplf, piecesLen_eq_bytes _ (tight_map_pCopy abs), piecesBytes_map_pCopy]
+  have hpb : piecesBytes ([pCopy hb, pU32 b, pU32 ip, pU16 (sum16 ls).toNat, pSkip 6] ++ abs.map pCopy) =
+      hb ++ be32 (n32 b) ++ be32 (n32 ip) ++ be16 (n16 abs.flatten.length) ++ zeros 6 ++ abs.flatten := by
+    rw [piecesBytes_append, piecesBytes_map_pCopy, hs]
+    simp [piecesBytes, pCopy, pU32, pU16, pSkip, Piece.bytes]
+  have hpre := fill_prefix _ _ _ _ htl (by rw [hpl]; omega) hout
+  rw [hpl, hpb] at hpre
+  have hcnt : abs.length = as.length := by
+    rw [(mapM2_length _ _ _ _ hmm).1, (mapM2_length _ _ _ _ hm1).2]
+  -- the bytes behind the header
+  generalize hF : abs.flatten = F at *
+  have hsplit : bs = (hb ++ be32 (n32 b) ++ be32 (n32 ip) ++ be16 (n16 F.length) ++ zeros 6 ++ F) ++ bs.drop (24 + F.length) := by
+    rw [← hpre, List.take_append_drop]
+  have hbody : bs.drop 8 = (be32 (n32 b) ++ be32 (n32 ip)) ++ (be16 (n16 F.length) ++ (zeros 6 ++ (F ++ bs.drop (24 + F.length)))) := by
+    conv => lhs; rw [hsplit]
+    simp only [List.append_assoc]
+    rw [← hbl, List.drop_left]
+  have hn16 : (n16 F.length).toNat = F.length := by rw [n16_toNat']; omega
+  have hal : u16At (bs.drop 8) 8 = F.length := by
+    rw [u16At_eq_beAt _ _ (by simp; omega), hbody]
+    have hr := beAt_append_right (be32 (n32 b) ++ be32 (n32 ip)) (be16 (n16 F.length) ++ (zeros 6 ++ (F ++ bs.drop (24 + F.length)))) 0 2
+    simp only [List.length_append, be32_length, Nat.add_zero] at hr
+    rw [hr, beAt_be16, hn16]
+  have hz : zerosAt (bs.drop 8) 10 6 "packet-out" = .ok () := by
+    apply zerosAt_ok
+    rw [hbody]
+    have : ∀ (p q z r : Bytes), p.length = 8 → q.length = 2 → z.length = 6 → slice (p ++ (q ++ (z ++ r))) 10 6 = z := by
+      intro p q z r hp' hq hz'
+      unfold slice
+      have : (p ++ q).length = 10 := by simp [hp', hq]
+      rw [← List.append_assoc, ← this, List.drop_left, ← hz', List.take_left]
+    rw [this _ _ _ _ (by simp) (by simp) (by simp [zeros])]
+    exact (allZero_iff _).mpr (allZero_zeros 6)
+  have hsl : slice (bs.drop 8) 16 F.length = F := by
+    rw [hbody]
+    have : ∀ (p q z r : Bytes), p.length = 8 → q.length = 2 → z.length = 6 → slice (p ++ (q ++ (z ++ (F ++ r)))) 16 F.length = F := by
+      intro p q z r hp' hq hz'
+      unfold slice
+      have : (p ++ q ++ z).length = 16 := by simp [hp', hq, hz']
+      rw [← List.append_assoc, ← List.append_assoc, ← this, List.drop_left, List.take_left]
+    exact this _ _ _ _ (by simp) (by simp) (by simp [zeros])
+  refine ⟨abs, hb, hbl, hcnt, by rw [hF]; omega, by rw [hF]; exact hpre, by rw [hF]; exact hal, hz, fun fuel hfu => ?_⟩
+  rw [hal, hsl, ← hF]
+  refine walkActions_flatten abs (fun bx hbx => ?_) fuel (by omega)
+  obtain ⟨x, hx, y, hxy⟩ := mapM2_mem_bytes _ _ _ _ hmm bx hbx
+  have hw := hk ls as1 hm1 x hx
+  have hdcl := action_declares x hw.1 bx y hxy
+  exact ⟨action_accept x hw.2 bx y hxy, by have := hdcl.2.1; omega⟩
+
+/-- a packet-out as NewPacketOut() + AddAction(output 7) + AddAction(group 3) + a 3-byte payload builds it -/
+def exPacketOut : V := .obj "PacketOut" [.obj "Header" [.num 4, .num 13, .num 8, .num 7], .num 4294967295,
+  .num Gen.openflow13.P_ANY, .num 24, .bytes (zeros 6), .list [ActionOutput.new 7, ActionGroup.new 3],
+  .obj "u.Buffer" [.bytes [1, 2, 3]]]
+
+/-- `packetOut_specWalk` applies to it (with the library's own payload functions): the encoder succeeds and the real
+    walker's action walk over the declared actions_len bytes returns two subtrees -/
+example : (PacketOut.marshalM exPacketOut).isOk = true ∧
+    ∀ bs v2, PacketOut.marshalM exPacketOut = .ok (bs, v2) →
+      ∃ ts, walkActions 4 (slice (bs.drop 8) 16 (u16At (bs.drop 8) 8)) = .ok ts ∧ ts.length = 2 := by
+  refine ⟨rfl, fun bs v2 h => ?_⟩
+  have hm : mapM2 Action.lenM [ActionOutput.new 7, ActionGroup.new 3] = .ok ([16, 8], [ActionOutput.new 7, ActionGroup.new 3]) := rfl
+  have hd : anyLenM (.obj "u.Buffer" [.bytes [1, 2, 3]]) = .ok (3, .obj "u.Buffer" [.bytes [1, 2, 3]]) := rfl
+  obtain ⟨abs, hb, _, hc, _, _, _, _, hw⟩ := packetOut_specWalk anyLenM anyMarshalM _ _ _ _ _ _ _ bs v2 (by
+      intro ls as1 hm' a ha
+      rw [hm] at hm'; cases hm'
+      simp only [List.mem_cons, List.mem_nil_iff, or_false] at ha
+      rcases ha with rfl | rfl
+      · exact ⟨actionWF_output 7, known_output 7⟩
+      · exact ⟨actionWF_group 3, known_group 3⟩)
+    (by intro ls as1 ld d1 hm' hd'
+        rw [hm] at hm'; cases hm'
+        rw [hd] at hd'; cases hd'
+        decide) h
+  exact ⟨_, hw 4 (by decide), by rw [List.length_map, hc]; rfl⟩
+
+/-! ### instructions and the flow-mod through the real walker -/
+
+/-- the subtree the walker builds for the instruction `c` -/
+def instrTree (c : Bytes) : Tree :=
+  match walkInstrs 2 c with
+  | .ok [t] => t
+  | _ => .node "rejected" c []
+
+theorem instrTree_of_accept (c : Bytes) (t : Tree) (h : InstrAccept c t) : InstrAccept c (instrTree c) := by
+  have := h 1 []
+  rw [List.append_nil] at this
+  have e : instrTree c = t := by
+    unfold instrTree; rw [this]; rfl
+  rw [e]; exact h
+
+/-- INSTRUCTIONS FOR WHICH ACCEPTANCE BY THE REAL WALKER IS PROVED: goto-table and write-metadata as their
+    constructors build them, meter with the header (6, 8), write- / apply-actions (type 3 / 4, zero pad bytes, any stored
+    length) whose actions — as Len() leaves them — are well-formed and of the known kinds, clear-actions (type 5)
+    without actions -/
+def InstrKnown (v : V) : Prop :=
+  (∃ tid, v = InstrGotoTable.new tid) ∨
+  (∃ md mk, v = InstrWriteMetadata.new md mk) ∨
+  (v.kind = "InstrMeter" ∧ ihdr v = some (6, 8)) ∨
+  (∃ ty x pad as ls as1, v = .obj "InstrActions" [.obj "InstrHeader" [.num ty, x], .bytes pad, .list as] ∧
+    ty ∈ [3, 4, 5] ∧ (ty = 5 → as = []) ∧ makeCopy 4 pad = zeros 4 ∧
+    mapM2 Action.lenM as = .ok (ls, as1) ∧ ∀ a ∈ as1, ActionWF a ∧ ActionKnown a)
+
+/-- ACCEPTANCE through the Instruction interface: the real walker accepts the encoding of EVERY known instruction
+    (shorter than 64 KiB) in front of whatever follows, and goes on behind it -/
+theorem instr_accept (v : V) (hk : InstrKnown v) (bs : Bytes) (v2 : V) (h : Instruction.marshalM v = .ok (bs, v2))
+    (hlt : bs.length < 65536) : InstrAccept bs (instrTree bs) ∧ 8 ≤ bs.length := by
+  rcases hk with ⟨tid, rfl⟩ | ⟨md, mk, rfl⟩ | ⟨hk, hi⟩ | ⟨ty, x, pad, as, ls, as1, rfl, hty, h5, hpad, hm, hwf⟩
+  · have e : Instruction.marshalM (InstrGotoTable.new tid) = InstrGotoTable.marshalM (InstrGotoTable.new tid) := by
+      simp [Instruction.marshalM, InstrGotoTable.new, V.kind]
+    rw [e] at h
+    obtain ⟨a, _, c⟩ := instrGotoTable_new_ok tid bs v2 h
+    obtain ⟨l8, _, _⟩ := instrGotoTable_wire _ bs v2 _ _ rfl h
+    exact ⟨instrTree_of_accept _ _ (accept_goto bs l8 a.code_ok (by rw [a.len_ok, l8]) c), by omega⟩
+  · have e : Instruction.marshalM (InstrWriteMetadata.new md mk) = InstrWriteMetadata.marshalM (InstrWriteMetadata.new md mk) := by
+      simp [Instruction.marshalM, InstrWriteMetadata.new, V.kind]
+    rw [e] at h
+    obtain ⟨a, _, c⟩ := instrWriteMetadata_new_ok md mk bs v2 h
+    obtain ⟨l24, _, _⟩ := instrWriteMetadata_wire _ bs v2 _ _ rfl h
+    exact ⟨instrTree_of_accept _ _ (accept_writeMetadata bs l24 a.code_ok (by rw [a.len_ok, l24]) (by
+      unfold slice; rw [c]; exact (allZero_iff _).mpr (allZero_zeros 4))), by omega⟩
+  · have e : Instruction.marshalM v = InstrMeter.marshalM v := by simp [Instruction.marshalM, hk]
+    rw [e] at h
+    obtain ⟨a, b, c⟩ := instrMeter_wire v bs v2 _ _ hi h
+    exact ⟨instrTree_of_accept _ _ (accept_meter bs a b c), by omega⟩
+  · have e : Instruction.marshalM (.obj "InstrActions" [.obj "InstrHeader" [.num ty, x], .bytes pad, .list as]) =
+        InstrActions.marshalM (.obj "InstrActions" [.obj "InstrHeader" [.num ty, x], .bytes pad, .list as]) := by
+      simp [Instruction.marshalM, V.kind]
+    rw [e] at h
+    obtain ⟨bss, as2, hmm, hd, hw, hlen, hal⟩ :=
+      instrActions_walk ty x pad as ls as1 hm (fun a ha => (hwf a ha).1) bs v2 h hlt
+    obtain ⟨h0, _, hp4, _⟩ := instrActions_wire ty x pad as bs v2 h hlt
+    have hfl : bss.flatten = bs.drop 8 := walkBy_total _ _ _ _ hw
+    have htl : ty < 65536 := by simp only [List.mem_cons, List.mem_nil_iff, or_false] at hty; omega
+    rw [Nat.mod_eq_of_lt htl] at h0
+    have hacc : ∀ b ∈ bss, Accepted b ∧ 0 < b.length := by
+      intro b hb
+      obtain ⟨y, hy, z, hyz⟩ := mapM2_mem_bytes _ _ _ _ hmm b hb
+      have hdcl := action_declares y (hwf y hy).1 b z hyz
+      exact ⟨action_accept y (hwf y hy).2 b z hyz, by have := hdcl.2.1; omega⟩
+    have hcnt := count_le_flatten bss (fun b hb => (hacc b hb).2)
+    refine ⟨instrTree_of_accept _ _ (accept_instrActions ty hty bs (bss.map actTree) (by omega) hal h0 hd ?_ ?_ ?_), by omega⟩
+    · unfold slice; rw [hp4, hpad]; exact (allZero_iff _).mpr (allZero_zeros 4)
+    · intro e5
+      have := h5 e5
+      subst this
+      simp [mapM2] at hm
+      obtain ⟨_, rfl⟩ := hm
+      simp [mapM2] at hmm
+      obtain ⟨rfl, _⟩ := hmm
+      simpa using hlen
+    · rw [← hfl]
+      exact walkActions_flatten bss hacc _ (by omega)
+
+/-- the bytes of a FlowMod, every command: the 8 header bytes (Length = Len()), the 40 fixed bytes spelled out, the
+    Match, and — unless the command is one of the two deletes — the instructions' encodings, complete and in order -/
+theorem flowMod_embeds2 (hh : V) (ck cm tid cmd it ht pr bid op og fl : Nat) (pad m : V) (is : List V) (bs : Bytes) (v2 : V)
+    (h : FlowMod.marshalM (.obj "FlowMod" [hh, .num ck, .num cm, .num tid, .num cmd, .num it, .num ht, .num pr, .num bid,
+      .num op, .num og, .num fl, pad, m, .list is]) = .ok (bs, v2)) :
+    ∃ l v1 hb mb m' ib, FlowMod.lenM (.obj "FlowMod" [hh, .num ck, .num cm, .num tid, .num cmd, .num it, .num ht, .num pr,
+        .num bid, .num op, .num og, .num fl, pad, m, .list is]) = .ok (l, v1) ∧
+      Header.bytes (Header.setLength l hh) = .ok hb ∧ Match.marshalM m = .ok (mb, m') ∧
+      bs = hb ++ (be64 (n64 ck) ++ be64 (n64 cm) ++ [n8 tid, n8 cmd] ++ be16 (n16 it) ++ be16 (n16 ht)
+        ++ be16 (n16 pr) ++ be32 (n32 bid) ++ be32 (n32 op) ++ be32 (n32 og) ++ be16 (n16 fl) ++ zeros 2) ++ mb ++ ib ∧
+      ((cmd = Gen.openflow13.FC_DELETE ∨ cmd = Gen.openflow13.FC_DELETE_STRICT) ∧ ib = [] ∨
+       ¬(cmd = Gen.openflow13.FC_DELETE ∨ cmd = Gen.openflow13.FC_DELETE_STRICT) ∧
+         ∃ ls is1 bss is2, mapM2 Instruction.lenM is = .ok (ls, is1) ∧ mapM2 Instruction.marshalM is1 = .ok (bss, is2) ∧
+           ib = bss.flatten) := by
+  unfold FlowMod.marshalM at h
+  obtain ⟨⟨l, v'⟩, hl, h3⟩ := bind_ok_inv _ _ _ h
+  refine ⟨l, v', ?_⟩
+  have hl0 := hl
+  unfold FlowMod.lenM at hl
+  simp only at hl
+  obtain ⟨⟨ml, m1⟩, hml, hl2⟩ := bind_ok_inv _ _ _ hl
+  have em := Match.lenM_pure _ _ _ hml
+  subst em
+  simp only at hl2
+  split at hl2
+  · rename_i hd
+    cases hl2
+    simp only at h3
+    obtain ⟨hb, hhb, h4⟩ := bind_ok_inv _ _ _ h3
+    obtain ⟨⟨⟨mb, m''⟩, e0⟩, hmm, h5⟩ := bind_ok_inv _ _ _ h4
+    obtain ⟨hmm', rfl⟩ := catchErr_noErr _ _ _ _ (Match.marshalM_noErr _) hmm
+    simp only [hd, if_true, Res.bind_ok] at h5
+    split at h5
+    · exact absurd h5 (by simp)
+    · cases h5
+      exact ⟨hb, mb, m'', [], hl0, hhb, hmm', rfl, Or.inl ⟨hd, rfl⟩⟩
+  · rename_i hd
+    obtain ⟨⟨ls, is1⟩, hm, hl3⟩ := bind_ok_inv _ _ _ hl2
+    cases hl3
+    simp only at h3
+    obtain ⟨hb, hhb, h4⟩ := bind_ok_inv _ _ _ h3
+    obtain ⟨⟨⟨mb, m''⟩, e0⟩, hmm, h5⟩ := bind_ok_inv _ _ _ h4
+    obtain ⟨hmm', rfl⟩ := catchErr_noErr _ _ _ _ (Match.marshalM_noErr _) hmm
+    simp only [hd, if_false] at h5
+    obtain ⟨⟨ib, is2, e⟩, hmli, h6⟩ := bind_ok_inv _ _ _ h5
+    obtain ⟨bss, hmi, rfl⟩ := marshalList_eq_mapM2 _ _ _ _ _ _ (fun x _ => Instruction.marshalM_noErr x) hmli
+    simp only at h6
+    split at h6
+    · exact absurd h6 (by simp)
+    · cases h6
+      exact ⟨hb, mb, m'', bss.flatten, hl0, hhb, hmm', rfl, Or.inr ⟨hd, ls, is1, bss, is2, hm, hmi, rfl⟩⟩
+
+/-- the empty match NewMatch() builds is accepted by `Spec.walkMatch` (8 bytes: type 1, length 4, 4 zero pad bytes) -/
+theorem matchNew_accept (mb : Bytes) (m' : V) (h : Match.marshalM Match.new = .ok (mb, m')) (tail : Bytes) :
+    walkMatch (mb ++ tail) = .ok (.node "match" mb [], mb.length) := by
+  have e : Match.marshalM Match.new = .ok ([0, 1, 0, 4, 0, 0, 0, 0], Match.new) := rfl
+  rw [e] at h; cases h
+  exact walkMatch_accept (fun b => .node "" b []) _ tail [] 4 rfl rfl rfl rfl rfl rfl (by intro b hb; simp at hb)
+
+/-- WALK of a whole FlowMod by the TOP-LEVEL specification walker: version 4, type OFPT_FLOW_MOD, ANY command 0..4
+    (for the two deletes no instructions are written), any cookie / table / timeouts / priority / buffer / ports / flags /
+    transaction id / stored length, a match whose encoding `Spec.walkMatch` accepts with subtree `mt` (`hmatch`; see
+    `matchNew_accept`), ANY list of instructions that — as Len() leaves them — are of the known kinds, total below
+    64 KiB: `Spec.walk` accepts, and its tree is the message node with the match and exactly one child per instruction -/
+theorem flowMod_topWalk (ln : V) (xid ck cm tid cmd it ht pr bid op og fl : Nat) (pad m : V) (is : List V) (bs : Bytes)
+    (v2 : V) (hcmd : cmd ≤ 4) (hlt : bs.length < 65536) (mt : Tree)
+    (hmatch : ∀ mb m', Match.marshalM m = .ok (mb, m') → ∀ tail, walkMatch (mb ++ tail) = .ok (mt, mb.length))
+    (hk : ∀ ls is1, mapM2 Instruction.lenM is = .ok (ls, is1) → ∀ i ∈ is1, InstrKnown i)
+    (h : FlowMod.marshalM (.obj "FlowMod" [.obj "Header" [.num 4, .num 14, ln, .num xid], .num ck, .num cm, .num tid,
+      .num cmd, .num it, .num ht, .num pr, .num bid, .num op, .num og, .num fl, pad, m, .list is]) = .ok (bs, v2)) :
+    ∃ ibs : List Bytes, Spec.walk bs = .ok (.node "msg 14" bs (mt :: ibs.map instrTree)) ∧
+      ((cmd = Gen.openflow13.FC_DELETE ∨ cmd = Gen.openflow13.FC_DELETE_STRICT) ∧ ibs = [] ∨
+       ¬(cmd = Gen.openflow13.FC_DELETE ∨ cmd = Gen.openflow13.FC_DELETE_STRICT) ∧ ibs.length = is.length) := by
+  obtain ⟨l, v1, hb, mb, m', ib, hl, hhb, hmm, hbs, hcase⟩ := flowMod_embeds2 _ ck cm tid cmd it ht pr bid op og fl pad m is bs v2 h
+  have hsz := C06b.flowMod_sizeMod _ l v1 bs v2 hl h
+  rw [Nat.mod_eq_of_lt hlt] at hsz
+  simp only [Header.setLength, Header.bytes, V.u16] at hhb
+  have ehb : hb = [n8 4, n8 14] ++ be16 (n16 l.toNat) ++ be32 (n32 xid) := (Res.ok.inj hhb).symm
+  -- the instruction area
+  have hins : ∃ ibs : List Bytes, ib = ibs.flatten ∧ (∀ fuel, ibs.length < fuel → walkInstrs fuel ib = .ok (ibs.map instrTree)) ∧
+      ibs.length ≤ ib.length ∧
+      ((cmd = Gen.openflow13.FC_DELETE ∨ cmd = Gen.openflow13.FC_DELETE_STRICT) ∧ ibs = [] ∨
+       ¬(cmd = Gen.openflow13.FC_DELETE ∨ cmd = Gen.openflow13.FC_DELETE_STRICT) ∧ ibs.length = is.length) := by
+    rcases hcase with ⟨hd, rfl⟩ | ⟨hd, ls, is1, bss, is2, hm, hmi, rfl⟩
+    · exact ⟨[], rfl, fun fuel hf => walkInstrs_flatten instrTree [] (by intro c hc; simp at hc) fuel hf, by simp, Or.inl ⟨hd, rfl⟩⟩
+    · have hacc : ∀ c ∈ bss, InstrAccept c (instrTree c) ∧ 8 ≤ c.length := by
+        intro c hc
+        obtain ⟨i, hi, i', hci⟩ := mapM2_mem_bytes _ _ _ _ hmi c hc
+        have hle := length_le_flatten bss c hc
+        have : bss.flatten.length ≤ bs.length := by rw [hbs]; simp only [List.length_append]; omega
+        exact instr_accept i (hk ls is1 hm i hi) c i' hci (by omega)
+      refine ⟨bss, rfl, fun fuel hf => walkInstrs_flatten instrTree bss (fun c hc => (hacc c hc).1) fuel hf,
+        count_le_flatten bss (fun c hc => by have := (hacc c hc).2; omega), Or.inr ⟨hd, ?_⟩⟩
+      rw [(mapM2_length _ _ _ _ hmi).1, (mapM2_length _ _ _ _ hm).2]
+  obtain ⟨ibs, hib, hwi, hcnt, hcs⟩ := hins
+  refine ⟨ibs, ?_, hcs⟩
+  generalize hF : (be64 (n64 ck) ++ be64 (n64 cm) ++ [n8 tid, n8 cmd] ++ be16 (n16 it) ++ be16 (n16 ht)
+        ++ be16 (n16 pr) ++ be32 (n32 bid) ++ be32 (n32 op) ++ be32 (n32 og) ++ be16 (n16 fl) ++ zeros 2) = F at hbs
+  have hFl : F.length = 40 := by rw [← hF]; simp [zeros]
+  have hF17 : ∀ R : Bytes, u8At (F ++ R) 17 = cmd := by
+    intro R; rw [← hF]
+    have : (n8 cmd).toNat = cmd := by simp [n8]; omega
+    simp [u8At, be64, this]
+  have hF38 : ∀ R : Bytes, slice (F ++ R) 38 2 = zeros 2 := by
+    intro R; rw [← hF]
+    have : ∀ (X Z : Bytes), X.length = 38 → Z.length = 2 → slice ((X ++ Z) ++ R) 38 2 = Z := by
+      intro X Z hx hz
+      unfold slice
+      rw [List.append_assoc, ← hx, List.drop_left, ← hz, List.take_left]
+    exact this _ _ (by simp) (by simp [zeros])
+  have hmw := hmatch mb m' hmm ib
+  have hB' : bs = [n8 4, n8 14] ++ (be16 (n16 l.toNat) ++ (be32 (n32 xid) ++ (F ++ (mb ++ ib)))) := by
+    rw [hbs, ehb]; simp only [List.append_assoc]
+  have hBl : bs.length = 48 + mb.length + ib.length := by rw [hB']; simp [hFl]; omega
+  have hv : u8At bs 0 = 4 := by rw [hB']; rfl
+  have ht : u8At bs 1 = 14 := by rw [hB']; rfl
+  have hln : u16At bs 2 = bs.length := by
+    rw [u16At_eq_beAt bs 2 (by omega)]
+    have hr := beAt_append_right [n8 4, n8 14] (be16 (n16 l.toNat) ++ (be32 (n32 xid) ++ (F ++ (mb ++ ib)))) 0 2
+    rw [← hB'] at hr
+    have hr' : beAt bs 2 2 = beAt (be16 (n16 l.toNat) ++ (be32 (n32 xid) ++ (F ++ (mb ++ ib)))) 0 2 := hr
+    rw [hr', beAt_be16, n16_of_toNat, hsz]
+  have hbody : bs.drop 8 = F ++ (mb ++ ib) := by
+    conv => lhs; rw [hB']
+    have : ([n8 4, n8 14] ++ (be16 (n16 l.toNat) ++ be32 (n32 xid))).length = 8 := by simp
+    rw [← List.append_assoc, ← List.append_assoc, ← this, List.append_assoc [n8 4, n8 14], List.drop_left]
+  have hz : zerosAt (bs.drop 8) 38 2 "flow-mod" = .ok () := by
+    apply zerosAt_ok; rw [hbody, hF38]; exact (allZero_iff _).mpr (allZero_zeros 2)
+  have hc17 : u8At (bs.drop 8) 17 = cmd := by rw [hbody, hF17]
+  have hd40 : (bs.drop 8).drop 40 = mb ++ ib := by rw [hbody, ← hFl, List.drop_left]
+  have hd40n : (bs.drop 8).drop (40 + mb.length) = ib := by
+    rw [← List.drop_drop, hd40, List.drop_left]
+  have hnl : ¬ bs.length < 8 := by omega
+  have hbl : ¬ (bs.drop 8).length < 40 := by simp; omega
+  have hc4 : ¬ cmd > 4 := by omega
+  unfold Spec.walk
+  simp only [walkMsg, hnl, hv, ht, hln, hz, hbl, hc17, hc4, hd40, hmw, if_false, ne_eq, not_true_eq_false]
+  show (do let ins ← walkInstrs (bs.length + 1) ((bs.drop 8).drop (40 + mb.length))
+           pure (Tree.node "msg 14" bs (mt :: ins)) : W Tree) = _
+  rw [hd40n, hwi (bs.length + 1) (by omega)]
+  rfl
+
+/-- goto-table 1, then apply-actions [output 7, group 3] -/
+def exInstrs : List V := [InstrGotoTable.new 1,
+  .obj "InstrActions" [.obj "InstrHeader" [.num Gen.openflow13.InstrType_APPLY_ACTIONS, .num 32], .bytes (zeros 4),
+    .list [ActionOutput.new 7, ActionGroup.new 3]]]
+
+/-- what NewFlowMod() (transaction id 7) + AddInstruction twice builds -/
+def exFlowMod : V := .obj "FlowMod" [.obj "Header" [.num 4, .num 14, .num 8, .num 7],
+  .num 0, .num 0, .num 0, .num Gen.openflow13.FC_ADD, .num 0, .num 0, .num 1000, .num 4294967295,
+  .num Gen.openflow13.P_ANY, .num Gen.openflow13.OFPG_ANY, .num 0, .bytes [], Match.new, .list exInstrs]
+
+/-- `flowMod_topWalk` applies to what the constructors build: NewFlowMod() + AddInstruction(goto-table 1) +
+    AddInstruction(apply-actions [output 7, group 3]) — version 4, type 14, the empty match; it encodes, and the
+    top-level walker accepts the encoding -/
+example : exInstrs.foldlM FlowMod.addInstruction (FlowMod.new 7) = .ok exFlowMod ∧
+    (FlowMod.marshalM exFlowMod).isOk = true ∧
+    ∀ bs v2, FlowMod.marshalM exFlowMod = .ok (bs, v2) → bs.length < 65536 → ∃ t, Spec.walk bs = .ok t := by
+  refine ⟨rfl, rfl, fun bs v2 h hlt => ?_⟩
+  obtain ⟨ibs, hw, _⟩ := flowMod_topWalk (.num 8) 7 0 0 0 Gen.openflow13.FC_ADD 0 0 1000 4294967295
+    Gen.openflow13.P_ANY Gen.openflow13.OFPG_ANY 0 (.bytes []) Match.new exInstrs bs v2 (by decide) hlt
+    (.node "match" [0, 1, 0, 4, 0, 0, 0, 0] [])
+    (by intro mb m' hm tail
+        have e : Match.marshalM Match.new = .ok ([0, 1, 0, 4, 0, 0, 0, 0], Match.new) := rfl
+        rw [e] at hm; cases hm
+        exact matchNew_accept _ _ e tail)
+    (by intro ls is1 hm i hi
+        have e : mapM2 Instruction.lenM exInstrs = .ok ([8, 32], exInstrs) := rfl
+        rw [e] at hm; cases hm
+        simp only [exInstrs, List.mem_cons, List.mem_nil_iff, or_false] at hi
+        rcases hi with rfl | rfl
+        · exact Or.inl ⟨1, rfl⟩
+        · refine Or.inr (Or.inr (Or.inr ⟨_, _, _, _, [16, 8], _, rfl, by decide, by decide, rfl, rfl, ?_⟩))
+          intro a ha
+          simp only [List.mem_cons, List.mem_nil_iff, or_false] at ha
+          rcases ha with rfl | rfl
+          · exact ⟨actionWF_output 7, known_output 7⟩
+          · exact ⟨actionWF_group 3, known_group 3⟩) h
+  exact ⟨_, hw⟩
 
 end OFV.Props.C02c
